@@ -58,6 +58,31 @@ CHECKS = {
   "note": "Trusted: gosx translation (self-checked natively on the 1-hour-offset entry against the real clock), z3; stubs as C03. Redis TTL behaviour and wall-clock effects outside the claim.",
   "technique": TECH + "; inductive step from a symbolic pre-state against a reference model",
  },
+ "C02": {
+  "text": "In-memory backend: (a) lock-set check on every path of every method from an arbitrary pre-state (all accesses to both maps inside the service mutex, mutex released at return) so each operation is one atomic step and concurrent histories are interleavings of the sequential steps decided in C03; (b) every version written is one never handed out before (solver, C03 step harness); (c) bounded symbolic scheduling of T=2 (quick) / 3 (thorough) real goroutines, one operation each of {Create, Put, CasByVersion current/stale, Delete, Get} on one key: single creator, at most one CAS winner, documented loser errors, distinct versions, and some sequential order explains all results and the final state. The Redis backend is not covered (no command-level stub was built).",
+  "note": "Trusted: gosx translation and scheduler (switches before every mutex/channel operation), z3; NewID token stub (ULID uniqueness contract). Redis backend, more threads/ops outside the claim.",
+  "technique": TECH + "; bounded symbolic scheduling of goroutines + lock-set check",
+ },
+ "C07": {
+  "text": "Bounded symbolic scheduling of the real in-memory WaitForVersionChange: W=2/3 waiter goroutines (current/stale/empty version, own cancellable context) on 1/2 keys against an environment thread running every script of 3/4 actions over {start waiter, cancel, Put, CasByVersion ok/conflict, Delete, Create, PutMany}; every schedule up to 2/3 preemptions. Monitors: a return value is justified by a moment during the call at which its documented condition held; every waiter whose condition holds does return (lost wake-up = deadlock); bookkeeping invariants after every step; table empty when all waiters are gone; lock-set check.",
+  "note": "Trusted: gosx scheduler and translation, z3; harness contexts; only unexpiring records. The Redis polling loop and free-running stress are outside the claim.",
+  "technique": TECH + "; bounded symbolic scheduling of goroutines, deadlock detection, lock-set check",
+ },
+ "C09": {
+  "text": "Bounded symbolic scheduling of the real ECache: T=2 (quick) / 3 (thorough) goroutines x 1 operation (and 2 goroutines x up to 2) over {GetOrCreate, Remove, Clear} on <=2 keys, capacity 1..2, create function that blocks (yield) and may fail; every schedule up to the preemption bound with switches at Lock/Unlock, channel receive/close and inside create. Monitors: at most one creation per key in progress, create never called under the lock, no deadlock, capacity never exceeded, some sequential LRU history (program order respected) explains all returned values and the delete-callback log, every created value deleted exactly once after a final Clear; lock-set check on items/inflight.",
+  "note": "Trusted: gosx scheduler and translation. More threads/ops/keys or preemptions outside the claim.",
+  "technique": TECH + "; bounded symbolic scheduling of goroutines + lock-set check",
+ },
+ "C12": {
+  "text": "Bounded symbolic model checking of the timer package: (a) step lemma from any queue of 0..4 (quick) / 0..7 (thorough) futures with symbolic fire times satisfying the heap invariant: Call with any delay (incl. 0/negative) and Cancel at any position, twice, of non-queued futures and of VoidFuture leave membership/fire time/function of every other future unchanged and preserve the invariant (real container/heap SSA); (b) real worker goroutines under the engine's scheduler with a symbolic clock and timers as environment: 2 Calls with symbolic delays, optional Cancels; monitors inside every callback: not early, at most once, never after a Cancel that returned before it was due.",
+  "note": "Trusted: gosx scheduler/translation, z3; time.Now/NewTimer/Stop intrinsics over one symbolic non-decreasing clock; preemption bound 0 (switches where a goroutine blocks/ends; timers and select choices free). Runtime timer lateness outside the claim.",
+  "technique": TECH + "; inductive step lemma + bounded symbolic scheduling with symbolic time",
+ },
+ "C13": {
+  "text": "Safety lemmas and bounded scheduling standing in for the liveness statement: (a) one Call from the idle package starts exactly one worker, the function fires, the worker exits after its idle rounds, the count returns to zero and the next Call restarts one (pool limit {1,2,10}, symbolic delay/idle timeout); (b) 2 (quick) / 3 (thorough) Calls with symbolic delays and pool limit 2: every future fires (otherwise deadlock), worker count within [1,limit] during callbacks, wind-down to zero; (c) prompt-environment lateness: a near future scheduled while the dispatcher sleeps towards a far one (and a burst) starts within 16 ns of its due time when timers fire exactly on time; (d) add/cancel always leave a wake-up token when a worker exists.",
+  "note": "Trusted: gosx scheduler/translation, z3; liveness = absence of deadlock under the engine's scheduler; fairness of the Go scheduler and real-time lateness are not modelled.",
+  "technique": TECH + "; bounded symbolic scheduling, deadlock detection, discrete-event time for the lateness lemma",
+ },
 }
 
 _PENDING = "check not built yet in this session (solver-based harness planned, see DESIGN.md section 4)"
